@@ -25,13 +25,15 @@
 
 /* ---- user-supplied routines ---- */
 #if SIM_FLAVOR == SIM_C99
-void *yyalloc(size_t n, yyscan_t yyscanner) { (void) yyscanner; return sim_alloc(n); }
-void *yyrealloc(void *p, size_t n, yyscan_t yyscanner) { (void) yyscanner; return sim_realloc(p, n); }
-void yyfree(void *p, yyscan_t yyscanner) { (void) yyscanner; sim_free(p); }
+#define SIM_EXTRA_OF(s) ((s) ? (void *) yyget_extra(s) : NULL)
+void *yyalloc(size_t n, yyscan_t yyscanner) { void *p = sim_alloc(n); sim_check_extra(SIM_EXTRA_OF(yyscanner), yyscanner != NULL); return p; }
+void *yyrealloc(void *p, size_t n, yyscan_t yyscanner) { void *q = sim_realloc(p, n); sim_check_extra(SIM_EXTRA_OF(yyscanner), yyscanner != NULL); return q; }
+void yyfree(void *p, yyscan_t yyscanner) { sim_check_extra(SIM_EXTRA_OF(yyscanner), yyscanner != NULL); sim_free(p); }
 #elif SIM_FLAVOR == SIM_R
-void *yyalloc(yy_size_t n, yyscan_t yyscanner) { (void) yyscanner; return sim_alloc(n); }
-void *yyrealloc(void *p, yy_size_t n, yyscan_t yyscanner) { (void) yyscanner; return sim_realloc(p, n); }
-void yyfree(void *p, yyscan_t yyscanner) { (void) yyscanner; sim_free(p); }
+#define SIM_EXTRA_OF(s) ((s) ? (void *) yyget_extra(s) : NULL)
+void *yyalloc(yy_size_t n, yyscan_t yyscanner) { void *p = sim_alloc(n); sim_check_extra(SIM_EXTRA_OF(yyscanner), yyscanner != NULL); return p; }
+void *yyrealloc(void *p, yy_size_t n, yyscan_t yyscanner) { void *q = sim_realloc(p, n); sim_check_extra(SIM_EXTRA_OF(yyscanner), yyscanner != NULL); return q; }
+void yyfree(void *p, yyscan_t yyscanner) { sim_check_extra(SIM_EXTRA_OF(yyscanner), yyscanner != NULL); sim_free(p); }
 #else
 void *yyalloc(yy_size_t n) { return sim_alloc(n); }
 void *yyrealloc(void *p, yy_size_t n) { return sim_realloc(p, n); }
@@ -190,14 +192,19 @@ static void sim_exec_top(sim_inst *I, const sim_xop *x)
 		yyscan_t s = NULL;
 		int r;
 		errno = 0;
-		if (x->a & 1)
+		if (x->a & 1) {
+			/* the instance itself is the user-defined value: the allocator
+			 * must be handed it back, and nobody else's */
+			I->extra_set = 1;
 #if SIM_FLAVOR == SIM_C99
-			r = yylex_init_extra(0, &s);
+			r = yylex_init_extra((void *) I, &s);
 #else
-			r = yylex_init_extra((YY_EXTRA_TYPE) 0, &s);
+			r = yylex_init_extra((YY_EXTRA_TYPE) I, &s);
 #endif
-		else
+		} else {
+			I->extra_set = 0;
 			r = yylex_init(&s);
+		}
 		sim_res_int("init", r);
 		if (r == 0) {
 			I->scanner = (void *) s;
